@@ -509,14 +509,14 @@ def mutate(r, d, n):
 def gen_fuzz_str(ctx):
     r = ctx.rng("fuzz-str")
     out = []
-    for _ in range(ctx.n(5000, 150000)):
+    for _ in range(ctx.n(12000, 400000)):
         d = r.choice(DOCS)
         if r.random() < 0.3:
             a, b = sorted((r.randint(0, len(d)), r.randint(0, len(d))))
             d = d[a:b]
         out.append(("fuzz-str", mutate(r, d, r.randint(1, 6)), {}, True))
     # markup made only of special tokens
-    for _ in range(ctx.n(2000, 40000)):
+    for _ in range(ctx.n(5000, 100000)):
         out.append(("fuzz-tokens", "".join(r.choice(SPECIAL + ["a", "b", "html", "p ", "1"]) for _ in range(r.randint(1, 14))), {}, True))
     return out
 
@@ -598,7 +598,7 @@ def gen_heuristics(ctx):
             out.append(("heur-len", ("\u00e9" * ((n - len(e)) // 2) + e).encode(), {}, True))
         out.append(("heur-len", "http://" + "a" * (n - 7), {}, True))
     alpha = list("ab.:/ ?*#&;>$|\\hHtTmMlLxX") + ["  ", "//", ".html", ".txt", ".xml", "http:", "https:", "\u00e9", "\udfff", "\x00", ".HTM"]
-    for _ in range(ctx.n(2500, 40000)):
+    for _ in range(ctx.n(5000, 60000)):
         m = "".join(r.choice(alpha) for _ in range(r.randint(1, 8))) + r.choice(exts + ["", "", ""])
         if r.random() < 0.5:
             try:
@@ -662,7 +662,7 @@ def gen_bytes(ctx):
         out.append(("from-enc", b"<p>\xe9</p>", {"from_encoding": name, "exclude_encodings": ["utf-8", "windows-1252"]}, True))
         out.append(("from-enc", b"<p>x</p>", {"exclude_encodings": [name, "utf-8", "windows-1252"]}, True))
         out.append(("from-enc", "<p>str with from_encoding</p>", {"from_encoding": name}, True))
-    for _ in range(ctx.n(2500, 80000)):
+    for _ in range(ctx.n(6000, 200000)):
         c = r.random()
         if c < 0.35:
             b = bytes(r.randint(0, 255) for _ in range(r.randint(0, 24)))
@@ -1181,6 +1181,15 @@ def run(ctx: Ctx):
     stream_fault(ctx, drv)
     record_outside(ctx)
 
+    # list one violation of every (stream, observation) class before the second of any: the replays written first are varied
+    seen = {}
+    order = []
+    for i, v in enumerate(ctx.violations):
+        k = (v.get("stream"), str(v.get("observed"))[:40])
+        seen[k] = seen.get(k, 0) + 1
+        order.append((seen[k], i))
+    ctx.violations[:] = [ctx.violations[i] for _, i in sorted(order)]
+
     if ctx.lean is not None and not ctx.lean.ok:
         ctx.notes.append("Lean obligations did not check: the direct oracle above ran over every stream (incl. the exhaustive truncation and surrogate "
                          "parts) and the fault-injection grid, which is where a changed field table or literal would show as a failing input")
@@ -1213,7 +1222,36 @@ def replay(path):
             print("handle_charref raised", type(e).__name__, str(e)[:100])
             return 1
     if c.get("op") == "fault":
-        print(json.dumps(c, indent=1)[:2000])
+        excs = {"KeyError": KeyError}
+        plan = []
+        for m, oe, de, cr, act in c["plan"]:
+            a = tuple(act) if act[0] != "raise" else ("raise", excs.get(act[1], KeyError))
+            plan.append((m, oe, de, cr, a))
+        outcome, attempts, d, msg = run_fault(plan)
+        print(f"plan of {len(plan)} strategies -> {outcome} after {attempts} attempts", msg or "")
+        accepting = [st for st in plan if st[4][0] == "accept"]
+        if any(st[4][0] == "raise" for st in plan):
+            return 0 if outcome == "other:KeyError" else 1
+        if not accepting:
+            return 0 if outcome == "prm" and attempts == len(plan) else 1
+        if outcome != "tree":
+            return 1
+        _, _, clean, _ = run_fault([accepting[0]])
+        if d != clean:
+            diff = [k for k in d["state"] if d["state"][k] != clean["state"].get(k)]
+            print("final object differs from a clean parse of the accepted strategy; state fields:", diff, "nodes equal:", d["nodes"] == clean["nodes"])
+            for k in diff[:8]:
+                print("  ", k, ":", d["state"][k], "  clean:", clean["state"].get(k))
+            return 1
+        print("final object identical to a clean parse of the accepted strategy")
+        return 0
+    if c.get("op") == "dammit":
+        from bs4.dammit import UnicodeDammit
+        markup, kw = dec_markup(c["markup"]), dec_kwargs(c.get("kwargs", {}))
+        fe = kw.get("from_encoding") or None
+        d = UnicodeDammit(markup, known_definite_encodings=[fe] if fe else [], user_encodings=[], is_html=True, exclude_encodings=kw.get("exclude_encodings"))
+        print("UnicodeDammit:", None if d.unicode_markup is None else repr(d.unicode_markup[:60]), d.original_encoding, d.contains_replacement_characters,
+              "| model:", v.get("model_reply"))
         return 1
     print(json.dumps(v, indent=1)[:3000])
     return 1
